@@ -191,6 +191,9 @@ package s2
 //@ spec func vcIterAt(s *ShapeIndexIterator) bool = s != nil && s.index != nil && 0 <= s.position && s.position <= len(s.index.cells) &&
 //@    (s.position < len(s.index.cells) ==> s.id == s.index.cells[s.position]) && (s.position == len(s.index.cells) ==> s.id == SentinelCellID)
 
+// the cached cell pointer is the map entry of the current cell (nil at the end)
+//@ spec func vcIterCell(s *ShapeIndexIterator) bool = (s.position < len(s.index.cells) ==> s.cell == s.index.cellMap[s.index.cells[s.position]]) && (s.position >= len(s.index.cells) ==> s.cell == nil)
+
 // cellIDFromPoint is verified under C01 (vc_cellid_verif.go): every point maps to a valid leaf.
 
 //@ func (s *ShapeIndexIterator) refresh()
@@ -198,6 +201,7 @@ package s2
 //@   modifies s.id, s.cell
 //@   ensures [in] s.position < len(s.index.cells) ==> s.id == s.index.cells[s.position]
 //@   ensures [end] s.position >= len(s.index.cells) ==> s.id == SentinelCellID
+//@   ensures [cell] vcIterCell(s)
 
 //@ func (s *ShapeIndexIterator) Next()
 //@   requires vcIterAt(s) && s.position < len(s.index.cells)
@@ -209,6 +213,8 @@ package s2
 //@   modifies s.position, s.id, s.cell
 //@   ensures [moved] result <==> old(s.position) > 0
 //@   ensures [pos] vcIterAt(s) && (result ==> s.position == old(s.position)-1) && (!result ==> s.position == old(s.position))
+//@   ensures [cell] result ==> vcIterCell(s)
+//@   ensures [unmoved] !result ==> s.cell == old(s.cell) && s.id == old(s.id)
 
 // on a fresh index Begin only positions the iterator (a stale index is rebuilt first: C13)
 //@ func (s *ShapeIndexIterator) Begin()
@@ -235,6 +241,7 @@ package s2
 //@   ensures [at] vcIterAt(s)
 //@   ensures [below] forall k int :: 0 <= k && k < s.position ==> s.index.cells[k] < target
 //@   ensures [first] s.position < len(s.index.cells) ==> s.index.cells[s.position] >= target
+//@   ensures [cell] vcIterCell(s)
 
 //@ property C06 C04
 //@ func (s *ShapeIndexIterator) LocatePoint(p Point) bool
@@ -243,6 +250,7 @@ package s2
 //@   ensures [at] vcIterAt(s)
 //@   ensures [sound] result ==> s.position < len(s.index.cells) && s.index.cells[s.position].Contains(old(cellIDFromPoint(p)))
 //@   ensures [complete] forall k int :: 0 <= k && k < len(s.index.cells) && s.index.cells[k].Contains(old(cellIDFromPoint(p))) ==> result
+//@   ensures [cell] vcIterCell(s)
 
 //@ property C06
 
@@ -255,3 +263,4 @@ package s2
 //@   ensures [subdivided] result == Subdivided ==> s.position < len(s.index.cells) && target.Contains(s.index.cells[s.position]) && target != s.index.cells[s.position]
 //@   ensures [disjoint] result == Disjoint ==> (forall k int :: 0 <= k && k < len(s.index.cells) ==> !s.index.cells[k].Intersects(target))
 //@   ensures [indexed-complete] (forall k int :: 0 <= k && k < len(s.index.cells) && s.index.cells[k].Contains(target) ==> result == Indexed)
+//@   ensures [cell] vcIterCell(s)
